@@ -635,6 +635,10 @@ impl Heap {
 
         loop {
             if self.free_space() >= len {
+                #[cfg(feature = "verif-hooks")]
+                if crate::machine::verif::exact_reserve() {
+                    self.verif_shrink_to(self.inner.byte_len + len);
+                }
                 section = ReservedHeapSection {
                     heap_ptr: self.inner.ptr,
                     heap_cell_len: self.cell_len(),
@@ -1226,6 +1230,26 @@ impl Heap {
     /// Shrinks the capacity to the length (at least one cell).
     pub(crate) fn verif_trim(&mut self) {
         let new_cap = self.inner.byte_len.max(size_of::<HeapCellValue>());
+        if self.inner.byte_cap == 0 || new_cap >= self.inner.byte_cap {
+            return;
+        }
+        unsafe {
+            let old_layout =
+                alloc::Layout::from_size_align(self.inner.byte_cap, size_of::<HeapCellValue>())
+                    .unwrap();
+            let new_ptr = alloc::realloc(self.inner.ptr, old_layout, new_cap);
+            if !new_ptr.is_null() {
+                self.inner.ptr = new_ptr;
+                self.inner.byte_cap = new_cap;
+            }
+        }
+    }
+
+    /// Shrinks the capacity to `new_cap` bytes (not below the length or one cell).
+    pub(crate) fn verif_shrink_to(&mut self, new_cap: usize) {
+        let new_cap = new_cap
+            .max(self.inner.byte_len)
+            .max(size_of::<HeapCellValue>());
         if self.inner.byte_cap == 0 || new_cap >= self.inner.byte_cap {
             return;
         }
